@@ -4,9 +4,13 @@ A case is a random HISTORY of operations on the real problem classes of all eigh
   construct   a new member (30%: a sibling = another object of a member that already exists)
   eval        evaluate an existing object at a new point (random, box corner, the object's own knownOptimum Point
               object, a GKLS minimiser row, a point on a GKLS sphere); StronginC3 also through its three constraints
+  cousin      evaluate ANOTHER member of the same family and dimension at a point some member was evaluated at before
+  reuse       overwrite the caller's own coordinate array in place with a new point and evaluate through it again
   revisit     re-evaluate an earlier (member, function, point) on the same object or on a sibling object, with the
               same ndarray or a fresh copy, with a fresh / a reused / a pre-filled value holder
 After EVERY operation:
+  agrees_with_formula  the objective value equals (1e-7) the closed formula of the member on its own tables (independent reference:
+                  a value cached under the wrong key is consistent with itself, not with the formula)
   same_value      a re-evaluation returns bitwise the value first seen for (member, function, point)
   holder          Calculate returns the very FunctionValue object it was given, with the value stored in it, type and
                   functionID untouched
@@ -138,7 +142,8 @@ def run_history(hseed, nops, grish_all=False):
 
     def do_construct(t, fam, args, sibling):
         p = oc.construct(fam, args)
-        instances.append({"fam": fam, "args": args, "obj": p, "digest": instance_digest(fam, p)})
+        fast, _ = oc.guarded(oc.fast_evaluator, fam, args, p)
+        instances.append({"fam": fam, "args": args, "obj": p, "digest": instance_digest(fam, p), "fast": fast, "buf": None})
         by_member.setdefault((fam, args), []).append(len(instances) - 1)
         info["ops"]["sibling" if sibling else "construct"] += 1
         info["families"][fam] = info["families"].get(fam, 0) + 1
@@ -181,6 +186,13 @@ def run_history(hseed, nops, grish_all=False):
         except Exception:
             v(t, "holder", op, what="value is not a number", value=repr(val))
             return op
+        if kind == "obj" and inst.get("fast") is not None:
+            # independent reference: the closed formula of the family on the tables as shipped / as generated at construction
+            ref, rerr = oc.guarded(lambda: float(inst["fast"](np.frombuffer(snap, dtype=np.double)[None, :])[0]))
+            if rerr is None and math.isfinite(ref) and math.isfinite(float(val)) and \
+                    not oc.close(float(val), ref, 1e-7, 1e-9):
+                v(t, "agrees_with_formula", op, value=float(val), formula=ref,
+                  what="the value differs from the closed formula of this member evaluated on its own tables")
         key = (fam, args, kind, snap)
         if key in memo:
             b0, t0 = memo[key]
@@ -212,6 +224,32 @@ def run_history(hseed, nops, grish_all=False):
             if fam == "stronginc3" and r.random() < 0.5:
                 kind = "c%d" % r.randint(0, 2)
             op = do_eval(t, idx, arr, pobj, kind, tag, False)
+            info["ops"]["eval"] += 1
+        elif c < 0.63:
+            # a point already evaluated on one member, now on ANOTHER member of the same family and dimension
+            fam, args, kind, x = r.choice(visited)
+            cous = [j for j, it in enumerate(instances) if it["fam"] == fam and it["args"] != args and
+                    len(oc.box(it["obj"])[0]) == len(x)]
+            if not cous or kind != "obj":
+                idx = r.randrange(len(instances))
+                arr, tag, pobj = _new_point(r, instances[idx]["fam"], instances[idx])
+                op = do_eval(t, idx, arr, pobj, "obj", tag, False)
+            else:
+                op = do_eval(t, r.choice(cous), x.copy(), None, "obj", "point_of_another_member", False)
+                info["ops"]["cousin"] = info["ops"].get("cousin", 0) + 1
+            info["ops"]["eval"] += 1
+        elif c < 0.70:
+            # the caller's coordinate buffer is REUSED: overwritten in place with a new point and evaluated again
+            idx = r.randrange(len(instances))
+            inst = instances[idx]
+            lo, hi = oc.box(inst["obj"])
+            if inst["buf"] is None:
+                inst["buf"] = np.array([r.uniform(l, h) for l, h in zip(lo, hi)], dtype=np.double)
+                op = do_eval(t, idx, inst["buf"], None, "obj", "reused_buffer_first", False)
+            else:
+                inst["buf"][:] = [r.uniform(l, h) for l, h in zip(lo, hi)]
+                op = do_eval(t, idx, inst["buf"], None, "obj", "reused_buffer_overwritten", False)
+            info["ops"]["buffer_reuse"] = info["ops"].get("buffer_reuse", 0) + 1
             info["ops"]["eval"] += 1
         else:
             fam, args, kind, x = r.choice(visited)
